@@ -4,6 +4,7 @@ import QrlewModel.Model.Hierarchy
 import QrlewModel.Model.Rules
 import QrlewModel.Generated.Rules
 import QrlewModel.Model.DpEvent
+import QrlewModel.Model.DpReduce
 import QrlewModel.Model.Monotone
 import QrlewModel.Model.Injection
 import QrlewModel.Model.Filter
@@ -235,19 +236,18 @@ def runDpQuery (aux : Json) : Option Json := do
     let b ← (e.getArrVal? 1).toOption >>= jFloat?
     pure (a, b)
   let o := floatOps
-  let aggShare := Budget.aggShare o tauUsed share
-  let g := groups.length.toFloat
-  let epsG := eps * aggShare / (if g < 1 then 1 else g)
-  let deltaG := delta * aggShare / (if g < 1 then 1 else g)
-  -- σ of every sum: gaussian_mechanisms(ε_G, δ_G, bounds)
-  let sigmaOk := groups.all fun sites =>
-    let want := Budget.sigmas o epsG deltaG (sites.map (·.2))
-    sites.all (fun sc => sc.2 ≥ 0) && (sites.zip want).all fun (sc, w) => closeTo sc.1 w
-  -- event: one Gaussian(recorded multiplier of the undivided group budget) per sum with σ > 0
-  let nLive := (groups.map fun sites => (sites.filter fun sc => sc.1 > 0).length).foldl (· + ·) 0
-  let m := Budget.recordedMultiplier o epsG deltaG
-  let eventOk := gauss.length == nLive && gauss.all (closeTo · m)
-  let tauOk := if tauUsed then (match eds with | [(e, d)] => closeTo e (eps * share) && closeTo d (delta * share) | _ => false) else eds.isEmpty
+  let bounds := groups.map fun sites => sites.map (·.2)
+  -- σ of every sum: the model of the whole reduce (`Model/DpReduce.lean`)
+  let want := DpReduce.sigmas o eps delta share tauUsed bounds
+  let sigmaOk := groups.length == want.length && (groups.zip want).all fun (sites, ws) =>
+    sites.all (fun sc => sc.2 ≥ 0) && sites.length == ws.length && (sites.zip ws).all fun (sc, w) => closeTo sc.1 w
+  -- the event: its elementary mechanisms, in order
+  let ev := DpEvent.leaves (fun x : Float => x == 0.0)
+    (DpReduce.event o (fun x : Float => x == 0.0) (fun x : Float => x > 0.0) eps delta share tauUsed bounds)
+  let evG := ev.filterMap fun e => match e with | .gaussian m => some m | _ => none
+  let evE := ev.filterMap fun e => match e with | .epsilonDelta a b => some (a, b) | _ => none
+  let eventOk := gauss.length == evG.length && (gauss.zip evG).all fun (a, b) => closeTo a b
+  let tauOk := eds.length == evE.length && (eds.zip evE).all fun (a, b) => closeTo a.1 b.1 && closeTo a.2 b.2
   pure (Json.mkObj [("sigma_ok", Json.bool sigmaOk), ("event_ok", Json.bool eventOk), ("tau_ok", Json.bool tauOk)])
 
 def runFnImg (c : Json) : Option Json := do
